@@ -555,7 +555,7 @@ def gen_slow(rng):
     for op in base["ops"]:
         if op["op"] in ("shell", "exec_out", "root", "streaming_shell"):
             # an operation costs a few transport calls per packet; aim the deadline at a random point of (or just past) its exchange
-            op["t"] = env["dt"] * rng.randrange(3, 28) + rng.randrange(env["dt"])
+            op["t"] = env["dt"] * rng.randrange(1, 28) + rng.randrange(env["dt"])
         op["tt"], op["rt"] = 10240, 10240
     base["healthy"] = False
     return base
